@@ -76,7 +76,7 @@ def net_strategy(dll, max_stacks=4, max_msgs=8, allow_zero_latency=True, min_len
                 m["pf"] = draw(st.integers(240, 255))
                 m["ps"] = draw(st.integers(0, 255))
             else:
-                m["pf"] = draw(st.integers(0, 239).filter(lambda x: x not in RESERVED_PF))
+                m["pf"] = draw(pdu1_format(m["dp"]))
                 if kind == "p2p":
                     others = [(i, j) for i in range(ns) if i != si for j in range(len(stacks[i]["cas"]))]
                     m["dst"] = list(draw(st.sampled_from(others)))
@@ -87,6 +87,14 @@ def net_strategy(dll, max_stacks=4, max_msgs=8, allow_zero_latency=True, min_len
                 "eps": draw(st.lists(st.sampled_from(EPS_GRID), min_size=1, max_size=3)),
                 "disp": draw(st.lists(st.sampled_from(EPS_GRID), min_size=1, max_size=3))}
     return build()
+
+
+def pdu1_format(dp):
+    """PDU1 formats an application may use: the protocol's own groups (request, TP, claim, FD.TP, multi-PG) are reserved on
+    data page 0 only - on data page 1 the same PDU formats are ordinary parameter groups (favoured here)."""
+    if dp == 0:
+        return st.integers(0, 239).filter(lambda x: x not in RESERVED_PF)
+    return st.one_of(st.integers(0, 239), st.integers(0, 239), st.sampled_from(sorted(RESERVED_PF)))
 
 
 # ------------------------------------------------------------------ reference model
